@@ -73,7 +73,8 @@ def close_class_files(cls):
 # ------------------------------------------------------------------------------------------------ value-level log
 class ValueLog:
     """ordered record of every value-object call: ('C', typ, metric, name, labelnames, labelvalues, help, mode),
-    ('I', idx, amount), ('S', idx, value, ts|None), ('G', idx), ('P', pidtext); `gets[i]` = result of op i if a get"""
+    ('I', idx, amount), ('S', idx, value, ts|None), ('G', idx), ('P', pidtext), and in world histories ('W', pidtext)
+    new worker / ('D', pidtext) mark_process_dead; `gets[i]` = result of op i if a get"""
 
     def __init__(self):
         self.ops = []
@@ -81,10 +82,21 @@ class ValueLog:
         self.gets = {}
         self.after = None       # optional hook called with the op's index after the real call returned normally
 
-    def set_pid_logged(self, pid):
-        self.ops.append(('P', str(pid)))
+    def event(self, tok):
+        """a step that is not a value-object call: ('P', pid) identity change, ('W', pid) new worker, ('D', pid) death"""
+        self.ops.append(tok)
         if self.after:
             self.after(len(self.ops) - 1)
+
+    def set_pid_logged(self, pid):
+        self.event(('P', str(pid)))
+
+    def spawn(self):
+        """the log of a NEW worker in the same world history: the op list, get results and hook are shared (global
+        step indices), the value-object indices restart at 0"""
+        g = ValueLog()
+        g.ops, g.gets, g.after = self.ops, self.gets, self.after
+        return g
 
 
 def logging_subclass(base, log):
@@ -340,8 +352,8 @@ def hist_request(initial_pid, ops):
             toks += ['S', str(op[1]), lib.fbits(op[2]), 'N' if op[3] is None else lib.fbits(op[3])]
         elif op[0] == 'G':
             toks += ['G', str(op[1])]
-        elif op[0] == 'P':
-            toks += ['P', lib.hx(op[1])]
+        elif op[0] in ('P', 'W', 'D'):
+            toks += [op[0], lib.hx(op[1])]
         else:
             raise lib.Infra('bad value-level op %r' % (op,))
     return ' '.join(toks)
